@@ -2,6 +2,7 @@ package ksim
 
 import (
 	"context"
+	"os"
 	"strings"
 	"encoding/json"
 	"fmt"
@@ -754,6 +755,9 @@ func (p *Process) callWebhook(h admission.Handler, op string, gvk schema.GroupVe
 	req.Object = runtime.RawExtension{Raw: raw}
 	if old != nil {
 		req.OldObject = runtime.RawExtension{Raw: s.Store.encode(old)}
+	}
+	if os.Getenv("KSIM_DEBUG_ADM") != "" && old != nil {
+		fmt.Printf("ADM %s seq=%d\n OLD %s\n NEW %s\n", gvk.Kind, s.Store.seq, string(req.OldObject.Raw), string(raw))
 	}
 	var resp admission.Response
 	var pv interface{}
